@@ -108,7 +108,11 @@ func propC01(r *kernel.Run) {
 			if len(toks) >= 3 {
 				continue
 			}
-			_, tok, err := registration.CreateServerLedActivationToken(w.Ctx, w.Storage, &types.ServerLedRegistrationRequest{}, w.Opts()...)
+			topts := w.Opts()
+			if tp.Draw(2) == 0 {
+				topts = append(topts, nodeenrollment.WithState(mkStruct(r, 2)))
+			}
+			_, tok, err := registration.CreateServerLedActivationToken(w.Ctx, w.Storage, &types.ServerLedRegistrationRequest{}, topts...)
 			if err != nil {
 				r.HarnessErr("create token: %v", err)
 			}
